@@ -37,24 +37,25 @@ impl Method {
 
 const MULT: [usize; 4] = [2, 3, 10, 1000];
 
-fn judge(m: Method, n: usize, kind: Kind, levels: &[f64], l: &mut Local) {
-    // table[level][k] = Some(obs) for admissible k
+/// `ks`: the success counts judged (ascending); all of 0..=n in the exhaustive sweep, clusters for huge n
+fn judge(m: Method, n: usize, ks: &[usize], kind: Kind, levels: &[f64], l: &mut Local) {
+    // table[level][position in ks] = Some(obs) for admissible k
     let case = |k: usize, level: f64| json!({"method": m.name(), "n": n, "k": k, "kind": kind, "level": level});
     let mut prev_level: Option<Vec<Option<Obs>>> = None;
     let mut sorted: Vec<f64> = levels.to_vec();
     sorted.sort_by(|a, b| a.partial_cmp(b).unwrap());
     sorted.dedup();
     for (li, &level) in sorted.iter().enumerate() {
-        let mut row: Vec<Option<Obs>> = vec![None; n + 1];
+        let mut row: Vec<Option<Obs>> = vec![None; ks.len()];
         if li % 2 == 1 {
             // every other level is first asked with a different kind: an implementation that remembers
             // a critical value per level only would then serve the wrong one for this whole row
             let other = if kind == Kind::Two { Kind::Upper } else { Kind::Two };
-            if let Some(k0) = (0..=n).find(|k| m.admissible(n, *k)) {
+            if let Some(k0) = ks.iter().cloned().find(|k| m.admissible(n, *k)) {
                 let _ = m.call(other, level, n, k0);
             }
         }
-        for k in 0..=n {
+        for (pos, &k) in ks.iter().enumerate() {
             if !m.admissible(n, k) {
                 continue;
             }
@@ -68,7 +69,7 @@ fn judge(m: Method, n: usize, kind: Kind, levels: &[f64], l: &mut Local) {
                 }
             }
             match m.call(kind, level, n, k) {
-                Out::Ok(o) => row[k] = Some(o),
+                Out::Ok(o) => row[pos] = Some(o),
                 other => {
                     // an admissible k (or the mirror of one) that is rejected
                     l.violation(
@@ -80,15 +81,15 @@ fn judge(m: Method, n: usize, kind: Kind, levels: &[f64], l: &mut Local) {
                 }
             }
         }
-        for k in 0..=n {
-            let o = match row[k] {
+        for (pos, &k) in ks.iter().enumerate() {
+            let o = match row[pos] {
                 Some(o) => o,
                 None => continue,
             };
             l.nontrivial(mix(&[m as u64, n as u64, k as u64, kind as u64, level.to_bits()]));
             // (a) monotone in k
-            if k + 1 <= n {
-                if let Some(o2) = row[k + 1] {
+            if pos + 1 < ks.len() && ks[pos + 1] == k + 1 {
+                if let Some(o2) = row[pos + 1] {
                     l.eval();
                     l.count("monotone-in-k judged");
                     if o.lo > o2.lo || o.hi > o2.hi {
@@ -148,7 +149,7 @@ fn judge(m: Method, n: usize, kind: Kind, levels: &[f64], l: &mut Local) {
             }
             // (d) higher level => wider (two-sided: strictly wider; one-sided: finite end moves outwards)
             if let Some(prev) = &prev_level {
-                if let Some(p) = prev[k] {
+                if let Some(p) = prev[pos] {
                     l.eval();
                     l.count("level-monotone judged");
                     let ok = match kind {
@@ -165,6 +166,9 @@ fn judge(m: Method, n: usize, kind: Kind, levels: &[f64], l: &mut Local) {
             let judged_shrink = kind == Kind::Two || level > 0.5;
             if judged_shrink && (k % 3 == 0 || n <= 60) {
                 for mult in MULT {
+                    if n.checked_mul(mult).is_none() {
+                        continue;
+                    }
                     l.eval();
                     l.count("shrink judged");
                     match m.call(kind, level, n * mult, k * mult) {
@@ -186,12 +190,70 @@ fn judge(m: Method, n: usize, kind: Kind, levels: &[f64], l: &mut Local) {
     }
 }
 
+/// "a higher level gives a wider interval" on a dense ladder of levels: 1-L log-spaced from 0.999 down
+/// to 1e-4 (600 steps, ~1.5 % per step), so that a critical value that is wrong only in a narrow band
+/// of levels (extreme tails, around 1/2) breaks the ordering of two neighbouring steps
+fn judge_level_ladder(m: Method, n: usize, k: usize, kind: Kind, l: &mut Local) {
+    if !m.admissible(n, k) {
+        return;
+    }
+    const STEPS: usize = 600;
+    let mut prev: Option<(f64, Obs)> = None;
+    for i in 0..=STEPS {
+        let tail = 0.999 * (1e-4f64 / 0.999).powf(i as f64 / STEPS as f64);
+        let level = (1.0 - tail).min(0.9999);
+        if let Some((pl, _)) = prev {
+            if !(level > pl) {
+                continue;
+            }
+        }
+        l.eval();
+        let o = match m.call(kind, level, n, k) {
+            Out::Ok(o) => o,
+            other => {
+                l.violation(format!("{}|admissible-count-rejected|{}", m.name(), other.class()), format!("{} rejects an admissible count", m.name()), json!({"method": m.name(), "n": n, "k": k, "kind": kind, "level": level, "ladder": true}), json!({"outcome": other.describe()}));
+                return;
+            }
+        };
+        if let Some((pl, p)) = prev {
+            l.count("level ladder step judged");
+            let ok = match kind {
+                Kind::Two => (o.hi - o.lo) > (p.hi - p.lo) && o.lo <= p.lo && o.hi >= p.hi,
+                Kind::Upper => o.lo < p.lo && o.hi == p.hi,
+                Kind::Lower => o.hi > p.hi && o.lo == p.lo,
+            };
+            if !ok {
+                l.violation(format!("{}|level-ladder-not-widening|{}", m.name(), kind.name()), "a slightly higher level does not give a wider interval".to_string(), json!({"method": m.name(), "n": n, "k": k, "kind": kind, "level": level, "ladder": true}), json!({"level": level, "observed": o.json(), "lower_level": pl, "observed_at_lower_level": p.json()}));
+                return;
+            }
+        }
+        prev = Some((level, o));
+    }
+    l.nontrivial(mix(&[m as u64, n as u64, k as u64, kind as u64, 0x1add]));
+}
+
+/// success counts judged for a population too large to enumerate: runs of consecutive counts at both
+/// ends of the admissible range, around n/4, n/2, 3n/4 and at a few other fractions
+fn clusters(n: usize) -> Vec<usize> {
+    let mut ks: Vec<usize> = vec![];
+    for c in [0usize, n / 1000, n / 10, n / 4, n / 3, n / 2, n - n / 3, n - n / 4, n - n / 10, n - n / 1000, n] {
+        for d in 0..14usize {
+            if c + d >= 7 && c + d - 7 <= n {
+                ks.push(c + d - 7);
+            }
+        }
+    }
+    ks.sort();
+    ks.dedup();
+    ks
+}
+
 pub fn run(run: &Arc<Run>) {
     let seed = run.cfg.seed;
     let nmax: usize = run.cfg.by(300, 2000);
     let levels = level_grid(seed, run.cfg.by(2, 8));
     run.set_rule(format!(
-        "exhaustive over 4 <= n <= {}, all admissible k, {} levels x 3 kinds, for ci / ci_wilson (monotone in k, mirror, within [0,1], midpoint, level, shrink with multipliers {:?}) and ci_z_normal (monotone, mirror, level, shrink). \
+        "exhaustive over 4 <= n <= {}, all admissible k, {} levels x 3 kinds, for ci / ci_wilson (monotone in k, mirror, within [0,1], midpoint, level, shrink with multipliers {:?}) and ci_z_normal (monotone, mirror, level, shrink); a few populations up to 20 000 with all k, and 5 populations in [2^32, 2^40] with clusters of consecutive k at the ends and around n/1000 .. n/2; level monotonicity additionally on a ladder of 600 log-spaced tail probabilities 0.999 .. 1e-4 for 6 populations x 7 counts. \
          Relations are between two or more real calls; non-trivial = admissible (method, n, k, kind, level); distinct = their fingerprints.",
         nmax,
         levels.len(),
@@ -206,7 +268,14 @@ pub fn run(run: &Arc<Run>) {
             _ => Method::Wilson,
         };
         let kind: Kind = serde_json::from_value(case["kind"].clone()).unwrap();
-        judge(m, case["n"].as_u64().unwrap() as usize, kind, &levels, &mut l);
+        let n = case["n"].as_u64().unwrap() as usize;
+        if case["ladder"] == json!(true) {
+            judge_level_ladder(m, n, case["k"].as_u64().unwrap() as usize, kind, &mut l);
+            run.absorb(l);
+            return;
+        }
+        let ks: Vec<usize> = if n <= 100_000 { (0..=n).collect() } else { clusters(n) };
+        judge(m, n, &ks, kind, &levels, &mut l);
         run.absorb(l);
         return;
     }
@@ -218,7 +287,29 @@ pub fn run(run: &Arc<Run>) {
         let n = big[(i / 6) as usize];
         let m = [Method::Wilson, Method::Wald][(i % 6 / 3) as usize];
         l.count("large population judged");
-        judge(m, n, KINDS[(i % 3) as usize], &few_levels, l);
+        let ks: Vec<usize> = (0..=n).collect();
+        judge(m, n, &ks, KINDS[(i % 3) as usize], &few_levels, l);
+    });
+    // populations far beyond the enumerable range (k*(n-k) exceeds 2^64 from n ~ 8.6e9 on): clusters of k
+    // (not beyond 2^40: the relations are strict inequalities between bounds that differ by ~1/n, and a
+    // bound near 1 carries a rounding noise of ~1e-15; at n = 3e15 ties and one-ulp inversions are what
+    // correct f64 code produces, which the property does not forbid)
+    let huge: Vec<usize> = vec![1 << 32, 10_000_000_000, (1 << 36) + 12345, 200_000_000_000, 1 << 40];
+    run.par(huge.len() as u64 * 6, |i, l| {
+        let n = huge[(i / 6) as usize] + (seed % 7) as usize;
+        let m = [Method::Wilson, Method::Wald][(i % 6 / 3) as usize];
+        l.count("population beyond 2^32 judged");
+        judge(m, n, &clusters(n), KINDS[(i % 3) as usize], &few_levels, l);
+    });
+    // dense level ladders on a few (n, k)
+    let ladder_n: [usize; 6] = [4, 20, 57, 400, 5000, 1_000_003];
+    run.par(ladder_n.len() as u64 * 9, |i, l| {
+        let n = ladder_n[(i / 9) as usize];
+        let m = [Method::Ci, Method::Wilson, Method::Wald][(i % 9 / 3) as usize];
+        let kind = KINDS[(i % 3) as usize];
+        for k in [2, 10, n / 3, n / 2, n - n / 3, n.saturating_sub(10), n - 2] {
+            judge_level_ladder(m, n, k, kind, l);
+        }
     });
     let ns = (nmax - 3) as u64;
     run.par(ns * 9, |i, l| {
@@ -229,8 +320,9 @@ pub fn run(run: &Arc<Run>) {
         if m == Method::Ci && n % 3 != 0 {
             return;
         }
-        judge(m, n, KINDS[j % 3], &levels, l);
+        let ks: Vec<usize> = (0..=n).collect();
+        judge(m, n, &ks, KINDS[j % 3], &levels, l);
     });
-    run.require(&["monotone-in-k judged", "mirror judged", "midpoint judged", "level-monotone judged", "shrink judged", "large population judged", "ratio front-end mirror judged"]);
+    run.require(&["monotone-in-k judged", "mirror judged", "midpoint judged", "level-monotone judged", "shrink judged", "large population judged", "population beyond 2^32 judged", "level ladder step judged", "ratio front-end mirror judged"]);
     let _: Option<Value> = None;
 }
